@@ -90,8 +90,13 @@ def generate(rng, tier, index):
             return base
 
         img = rng.randrange(len(wp["images"]))
+        last = len(wp["images"]) - 1
         motifs = [
             [o(create_cache=True), o(), {"op": "rm-user", "image": None}, o()],
+            # a partially cached multi-image product: one image's index removed, then creation
+            [o(create_cache=True), {"op": "rm-user", "image": last}, o(create_cache=True), o(),
+             o(use_cache=False)],
+            [o(create_cache=True), {"op": "rm-user", "image": 0}, o(create_cache=True), o()],
             [o(), o(create_cache=True), o(), o(use_cache=False)],
             [o(rpc=1), o(rpc=n + 1, create_cache=True), o(rpc=2), o(rpc=None)],
         ]
@@ -105,6 +110,7 @@ def generate(rng, tier, index):
                  {"op": "rm-user", "image": None}, o(), {"op": "rm-adjacent", "image": None}, o()],
                 [{"op": "cli", "image": img, "rpc": None}, o(create_cache=True),
                  {"op": "rm-adjacent", "image": None}, o(create_cache=True), o()],
+                [{"op": "cli", "image": 0, "rpc": None}, o(create_cache=True), o(), o(rpc=1)],
                 [{"op": "cli", "image": img, "rpc": None}, o(create_cache=True),
                  o(use_cache=False, create_cache=True), o()],
             ]
